@@ -4336,3 +4336,213 @@ func E5ImageSampleDepth(c *core.Ctx, r *core.Report) {
 	r.Count("E5.sample-depth-entries", n)
 	r.Floor("E5.sample-depth-entries", 2)
 }
+
+// E5WArrayPendingFlushed: the /W compression never moves its cursor past widths it has not written.
+func E5WArrayPendingFlushed(c *core.Ctx, r *core.Report) {
+	r.Rule("E5.w-array-pending-flushed", "writeFont shortens the CIDFont /W array: a cursor I marks the first width not yet written, J the start of the current run of equal widths; when a long run ends the pending individual widths `widths[I:J]` are written as `I [w…]`, the run as a range (or not at all when it equals /DW), and the cursor moves past the run (`I = k`). Whatever the run's width is, the pending widths must be written before the cursor moves: every `if` that encloses the append of `I, arr` inside the loop — other than the emptiness test comparing I and J themselves — also encloses the assignment to I, and the append comes first. Flushing only when the run differs from /DW drops the pending widths when a run of default-width glyphs follows them: a reader gives those codes /DW")
+	p := c.MustPkg("renderers/pdf")
+	info := p.TypesInfo
+	fd := core.MustFuncDecl(p, "pdfWriter.writeFont")
+	r.Func("pdf.pdfWriter.writeFont")
+	// cursor and run start: widths[I:J]
+	var iO, jO types.Object
+	ast.Inspect(fd.Body, func(m ast.Node) bool {
+		se, ok := m.(*ast.SliceExpr)
+		if !ok || se.Low == nil || se.High == nil {
+			return true
+		}
+		lo, ok1 := core.Unparen(se.Low).(*ast.Ident)
+		hi, ok2 := core.Unparen(se.High).(*ast.Ident)
+		if ok1 && ok2 && iO == nil {
+			iO, jO = core.ObjOf(info, lo), core.ObjOf(info, hi)
+		}
+		return true
+	})
+	if iO == nil {
+		r.Fail("E5.w-array-pending-flushed", "pdf.pdfWriter.writeFont|pending widths", c.Pos(fd.Pos()), "no slice `widths[I:J]` of pending widths found")
+		return
+	}
+	onlyIJ := func(e ast.Expr) bool {
+		ok := true
+		ast.Inspect(e, func(q ast.Node) bool {
+			if id, isID := q.(*ast.Ident); isID {
+				if o := core.ObjOf(info, id); o != iO && o != jO {
+					if _, isVar := o.(*types.Var); isVar {
+						ok = false
+					}
+				}
+			}
+			return true
+		})
+		return ok
+	}
+	type site struct {
+		pos    token.Pos
+		guards []*ast.IfStmt
+	}
+	var flushes, moves []site
+	var loop *ast.RangeStmt
+	walkStack(fd.Body, func(m ast.Node, stack []ast.Node) {
+		as, ok := m.(*ast.AssignStmt)
+		if !ok || len(as.Lhs) != 1 || len(as.Rhs) != 1 {
+			return
+		}
+		var rs *ast.RangeStmt
+		var guards []*ast.IfStmt
+		for k := len(stack) - 1; k >= 0; k-- {
+			if x, ok := stack[k].(*ast.RangeStmt); ok {
+				rs = x
+				break
+			}
+			if is, ok := stack[k].(*ast.IfStmt); ok && !onlyIJ(is.Cond) {
+				guards = append(guards, is)
+			}
+		}
+		if rs == nil {
+			return
+		}
+		if id, ok := as.Lhs[0].(*ast.Ident); ok && core.ObjOf(info, id) == iO && as.Tok == token.ASSIGN {
+			moves = append(moves, site{as.Pos(), guards})
+			loop = rs
+		}
+		if ce, ok := core.Unparen(as.Rhs[0]).(*ast.CallExpr); ok && len(ce.Args) >= 3 {
+			if fid, ok := ce.Fun.(*ast.Ident); ok && fid.Name == "append" {
+				if a1, ok := core.Unparen(ce.Args[1]).(*ast.Ident); ok && core.ObjOf(info, a1) == iO {
+					flushes = append(flushes, site{as.Pos(), guards})
+				}
+			}
+		}
+	})
+	n := 0
+	for _, mv := range moves {
+		n++
+		key := fmt.Sprintf("pdf.pdfWriter.writeFont|cursor move #%d follows the flush of the pending widths", n)
+		good, why := false, "no append of the pending widths `I, arr` precedes it in the loop"
+		for _, fl := range flushes {
+			if fl.pos > mv.pos {
+				continue
+			}
+			sub := true
+			for _, g := range fl.guards {
+				in := false
+				for _, h := range mv.guards {
+					in = in || g == h
+				}
+				if !in {
+					sub = false
+					why = fmt.Sprintf("the pending widths are written only under `%s`, the cursor moves whether or not that holds: when it does not, the widths between the cursor and the run are never written and a reader uses /DW for them", c.Src(g.Cond))
+				}
+			}
+			if sub {
+				good = true
+			}
+		}
+		if good {
+			r.OK("E5.w-array-pending-flushed", key, c.Pos(mv.pos), "")
+		} else {
+			r.Fail("E5.w-array-pending-flushed", key, c.Pos(mv.pos), why)
+		}
+	}
+	_ = loop
+	r.Count("E5.w-cursor-moves", n)
+	r.Floor("E5.w-cursor-moves", 1)
+}
+
+// E5FormatConstant: data never becomes a format string.
+func E5FormatConstant(c *core.Ctx, r *core.Report) {
+	r.Rule("E5.format-constant", "the PDF writer emits through `write(format, args…)`, a wrapper of fmt.Fprintf, and builds strings with fmt.Sprintf/Fprintf. A value that comes from the caller (metadata, link targets, names) is only ever an argument of such a call: the format operand of every call of a printf-style function in the package — the fmt functions and every package function that passes its own format parameter on to one — is a compile-time constant. With `write(\"(\" + v + \")\")` a `%` in the value is read as a verb: `100% done` is stored as `100%!d(MISSING)one`, and the parentheses of fmt's diagnostics end the string object early")
+	p := c.MustPkg("renderers/pdf")
+	info := p.TypesInfo
+	// printf-style functions: index of the format parameter
+	fmtIdx := map[*types.Func]int{}
+	isFmt := func(f *types.Func) (int, bool) {
+		if f == nil || f.Pkg() == nil {
+			return 0, false
+		}
+		if f.Pkg().Path() == "fmt" {
+			switch f.Name() {
+			case "Printf", "Sprintf", "Errorf":
+				return 0, true
+			case "Fprintf":
+				return 1, true
+			}
+			return 0, false
+		}
+		i, ok := fmtIdx[f]
+		return i, ok
+	}
+	for changed := true; changed; {
+		changed = false
+		for _, fd := range core.AllFuncDecls(p) {
+			if fd.Body == nil {
+				continue
+			}
+			fo, _ := info.Defs[fd.Name].(*types.Func)
+			if fo == nil {
+				continue
+			}
+			if _, done := fmtIdx[fo]; done {
+				continue
+			}
+			sig := fo.Type().(*types.Signature)
+			if !sig.Variadic() {
+				continue
+			}
+			ast.Inspect(fd.Body, func(m ast.Node) bool {
+				ce, ok := m.(*ast.CallExpr)
+				if !ok {
+					return true
+				}
+				if k, ok := isFmt(core.CalleeOf(info, ce)); ok && k < len(ce.Args) {
+					if id, ok := core.Unparen(ce.Args[k]).(*ast.Ident); ok {
+						for pi := 0; pi < sig.Params().Len(); pi++ {
+							if sig.Params().At(pi) == core.ObjOf(info, id) {
+								if _, done := fmtIdx[fo]; !done {
+									fmtIdx[fo] = pi
+									changed = true
+								}
+							}
+						}
+					}
+				}
+				return true
+			})
+		}
+	}
+	n, bad := 0, 0
+	for _, fd := range core.AllFuncDecls(p) {
+		if fd.Body == nil {
+			continue
+		}
+		fo, _ := info.Defs[fd.Name].(*types.Func)
+		ast.Inspect(fd.Body, func(m ast.Node) bool {
+			ce, ok := m.(*ast.CallExpr)
+			if !ok {
+				return true
+			}
+			k, ok := isFmt(core.CalleeOf(info, ce))
+			if !ok || k >= len(ce.Args) {
+				return true
+			}
+			n++
+			a := ce.Args[k]
+			if tv, ok := info.Types[a]; ok && tv.Value != nil {
+				return true
+			}
+			// a wrapper handing its own format parameter on
+			if id, ok := core.Unparen(a).(*ast.Ident); ok && fo != nil {
+				if pi, isW := fmtIdx[fo]; isW && fo.Type().(*types.Signature).Params().At(pi) == core.ObjOf(info, id) {
+					return true
+				}
+			}
+			bad++
+			r.Fail("E5.format-constant", fmt.Sprintf("pdf.%s|format operand `%s` is constant", core.FuncName(fd), c.Src(a)), c.Pos(a.Pos()), fmt.Sprintf("`%s` is used as a format string and is not a constant: a `%%` in the data is read as a verb, fmt writes `%%!d(MISSING)` and the like into the file, and the parentheses of that text unbalance a PDF string", c.Src(a)))
+			return true
+		})
+	}
+	if bad == 0 {
+		r.OK("E5.format-constant", "pdf|every format operand is a constant", "", fmt.Sprintf("%d calls, %d wrappers", n, len(fmtIdx)))
+	}
+	r.Count("E5.printf-style-calls", n)
+	r.Floor("E5.printf-style-calls", 40)
+}
